@@ -30,17 +30,17 @@ def run_factory(op):
     cls = getattr(nml, op["cls"], None)
     kw = {k: H.conv(v) for k, v in op["kw"]}
     r["kw_dump"] = [[k, H.dval(v)] for k, v in kw.items()]
-    # oracle for the abstract parts of the model: the same class constructed directly with the same keywords
-    try:
-        probe = cls(**kw)
-        if op["cls"] == "Cell":
-            probe.setup_nml_cell()
-            r["cell"] = H.dump(probe)
-        r["direct"] = H.dump(probe)
-        r["vchild"] = H.is_valid(probe)
-    except Exception as e:  # noqa
+    # oracle for the abstract parts of the model: the same class constructed directly with the same keywords and
+    # validated in a FRESH process (computed by main() before this process validated anything)
+    o = op.get("_oracle") or {"fresh_error": "no oracle"}
+    if "fresh_error" in o:
         r["vchild"] = False
-        r["direct_exc"] = type(e).__name__
+        r["direct_exc"] = o["fresh_error"].split(":")[0]
+    else:
+        r["vchild"] = o["vchild"]
+        r["direct"] = o["direct"]
+        if "cell" in o:
+            r["cell"] = o["cell"]
     arg = op["cls"] if op["form"] == "str" else cls
     handler = H.LogCount()
     lg = logging.getLogger("neuroml.nml.generatedssupersuper")
@@ -66,8 +66,37 @@ def run_factory(op):
     if ret is not None:
         r["ret"] = H.dump(ret)
         r["ret_cls"] = type(ret).__name__
-        r["ret_valid"], r["ret_validate_exc"] = explicit_validate(ret)
+        r["ret_valid_in_process"], r["ret_validate_exc"] = explicit_validate(ret)
+        # the verdict that counts is that of a process whose class-level state cannot have been touched by earlier calls:
+        # the returned component equals the directly constructed one, whose fresh-process verdict is known
+        if "direct" in r and r["ret"] == r["direct"]:
+            r["ret_valid"] = bool(r["ret_valid_in_process"]) and bool(r["vchild"])
+            r["ret_valid_fresh"] = r["vchild"]
+        else:
+            r["ret_valid"] = r["ret_valid_in_process"]
     return r
+
+
+def run_session(sess):
+    res = []
+    for op in sess["ops"]:
+        sys.stdout = io.StringIO()
+        r = {}
+        if op["op"] == "enable":
+            neuroml.enable_build_time_validation()
+        elif op["op"] == "disable":
+            neuroml.disable_build_time_validation()
+        elif op["op"] == "set":
+            btv.ENABLED = bool(op["value"])
+        elif op["op"] == "factory":
+            r = run_factory(op)
+        elif op["op"] == "validate":      # construct directly and call validate(): a type gets validated in this process
+            o = getattr(nml, op["cls"])(**{k: H.conv(v) for k, v in op["kw"]})
+            r["valid"] = H.is_valid(o)
+        r["switch"] = btv.ENABLED
+        r["getter"] = neuroml.get_build_time_validation()
+        res.append(r)
+    return res
 
 
 def main():
@@ -76,34 +105,42 @@ def main():
     real_stdout = sys.stdout
     sys.stdout = io.StringIO()
     initial = btv.ENABLED
+    attrs0 = H.class_attr_snapshot()
+    for sess in P["sessions"]:      # fresh-process oracles first, while this process is pristine
+        for op in sess["ops"]:
+            if op["op"] == "factory" and hasattr(nml, op["cls"]):
+                op["_oracle"] = H.class_oracle(op["cls"], op["kw"])
     out = []
+    isolated_attrs = {}
     try:
         for sess in P["sessions"]:
-            res = []
             try:
-                for op in sess["ops"]:
-                    sys.stdout = io.StringIO()
-                    r = {}
-                    if op["op"] == "enable":
-                        neuroml.enable_build_time_validation()
-                    elif op["op"] == "disable":
-                        neuroml.disable_build_time_validation()
-                    elif op["op"] == "set":
-                        btv.ENABLED = bool(op["value"])
-                    elif op["op"] == "factory":
-                        r = run_factory(op)
-                    r["switch"] = btv.ENABLED
-                    r["getter"] = neuroml.get_build_time_validation()
-                    res.append(r)
+                if sess.get("isolate"):
+                    # the whole session in a forked copy of the still pristine process: what it sees depends on its own
+                    # operations only (order of types within the session), not on earlier sessions
+                    def work(sess=sess):
+                        a0 = H.class_attr_snapshot()
+                        return {"res": run_session(sess), "attrs": H.class_attr_diff(a0)}
+                    w = H.fresh(work)
+                    if "fresh_error" in w:
+                        raise RuntimeError(w["fresh_error"])
+                    res = w["res"]
+                    for c, a in w["attrs"].items():
+                        isolated_attrs.setdefault(c, sorted(set(isolated_attrs.get(c, [])) | set(a)))
+                else:
+                    res = run_session(sess)
             except Exception as e:  # noqa
                 import traceback
-                res.append({"harness_error": type(e).__name__ + ": " + str(e)[:300] + " @ " + traceback.format_exc()[-600:]})
+                res = [{"harness_error": type(e).__name__ + ": " + str(e)[:300] + " @ " + traceback.format_exc()[-600:]}]
             finally:
                 btv.ENABLED = initial
             out.append(res)
     finally:
         sys.stdout = real_stdout
-    print(json.dumps({"results": out, "initial": initial}))
+    new = H.class_attr_diff(attrs0)
+    for c, a in isolated_attrs.items():
+        new[c] = sorted(set(new.get(c, [])) | set(a))
+    print(json.dumps({"results": out, "initial": initial, "new_class_attrs": new}))
 
 
 if __name__ == "__main__":
